@@ -292,7 +292,7 @@ pub fn check(ctx: &Ctx) -> i32 {
     let mut ev = Evidence::default();
     ev.rule = "Core programs produced by fun2core from generated Fun programs with effects (print, exit, goto, nested calls) in any argument position; oracle: the Core abstract machine with dynamic focusing on the unfocused program vs the same machine on Prog::focus() (output, result, termination), plus the structural invariant that parameters, mu/mu-tilde and clause binders along every path have pairwise distinct non-zero ids <= max_id. Non-trivial: the unfocused run had to evaluate >= 2 non-value arguments through reified contexts and printed at least once; distinct by hash of (source, arguments). Effect-position matrix: two printing effects at every ordered pair of integer leaf positions of small argument trees (call, constructor and operator arguments with constructors nested up to depth 3; inline print blocks and calls of a printing definition). Second domain: well-typed unfocused Core programs generated directly as syntax trees (gen_core: every producer/consumer form in cuts at integer, data and codata types, abstractions/(co)matches/xtors nested in any argument position, constructors with consumer fields, destructors without continuation, xtor names shared between types, binders shadowing names of either chirality, recursion through a fuel parameter); same oracle; the histogram of cut shapes is reported as core-cut:* classes.".into();
     ev.assumptions = vec!["Core machine as in DESIGN.md 3.2".into()];
-    let n = ctx.tier.pick(6000, 400000);
+    let n = ctx.tier.pick(16000, 400000);
     // debugging aid: VERIF_ONLY=gencore skips the first domain
     let n = if std::env::var("VERIF_ONLY").as_deref() == Ok("gencore") { 0 } else { n };
     let run = |b: &[u8]| {
@@ -325,7 +325,7 @@ pub fn check(ctx: &Ctx) -> i32 {
     // second domain: Core programs generated directly
     if report.violations.is_empty() {
         use super::corecase::{self, Mode};
-        let n2 = ctx.tier.pick(6000, 400000);
+        let n2 = ctx.tier.pick(12000, 400000);
         let run2 = |b: &[u8]| corecase::run(ctx, Mode::Focus, b);
         let out2 = drive(&mut ev, ctx.seed, 103, n2, 60, 1500, 300, &run2);
         if let Some((bytes, f)) = out2.failure {
